@@ -177,7 +177,11 @@ def mask_file(regionfile, infile, outfile, negate=False):
         wcs = pywcs.WCS(str(im[0].header), naxis=2)
 
     if len(im[0].data.shape) > 2:
-        data = np.squeeze(im[0].data)
+        # drop the degenerate non-celestial axes only, a celestial axis may
+        # legitimately have length one
+        extra = im[0].data.shape[:-2]
+        data = np.squeeze(im[0].data, axis=tuple(
+            i for i, n in enumerate(extra) if n == 1))
     else:
         data = im[0].data
 
